@@ -67,7 +67,13 @@ class Prov:
             if name in self._cache:
                 return self._cache[name]
             if name in self._pidx:
-                e = ('param', self._pidx[name], name)
+                pi = self._pidx[name]
+                at = self.fn.param_attrs[pi] if pi < len(self.fn.param_attrs) else set()
+                if 'byval' in at or 'sret' in at:
+                    # callee-private copy / caller's result slot: behaves like a local object
+                    e = ('addr', ('A', name), ())
+                else:
+                    e = ('param', pi, name)
             else:
                 ins = self.fn.defs.get(name)
                 if ins is None:
@@ -150,6 +156,12 @@ class Prov:
                 fname = None
                 if sname:
                     names = self.m.field_names(sname)
+                    if not names and not sname.split('.', 1)[-1].startswith('anon'):
+                        for om in self.prog.modules.values():
+                            if om.structs.get(sname) == self.m.structs.get(sname):
+                                names = om.field_names(sname)
+                                if names:
+                                    break
                     if names and n < len(names):
                         fname = names[n]
                 steps.append(('f', sname, n, fname))
